@@ -45,18 +45,22 @@ static inline int op_conn(uint8_t op) { return (op >> 2) / NKIND; }
 static inline int op_kind(uint8_t op) { return (op >> 2) % NKIND; }
 static inline int op_dt(uint8_t op) { return op & 3; }
 static inline uint8_t mk_op(int conn, int kind, int dt) { return uint8_t(((conn * NKIND) + kind) * 4 + dt); }
+// connection index 2 ("x") is the THIRD PARTY: a TCP 4-tuple that belongs to neither connection of the pair and never creates a
+// stream (pure ACK; a data segment only while partial following is off).  Its packets only make time pass and drive the idle sweep.
+static const int XCONN = 2;
 static std::string op_str(uint8_t op) {
-    return std::string(1, char('a' + op_conn(op))) + "." + KNAME[op_kind(op)] + "." + DTNAME[op_dt(op)];
+    return std::string(1, op_conn(op) == XCONN ? 'x' : char('a' + op_conn(op))) + "." + KNAME[op_kind(op)] + "." + DTNAME[op_dt(op)];
 }
 static int parse_op(const std::string& s) {
     if (s.size() < 5 || s[1] != '.') return -1;
-    int conn = s[0] - 'a';
+    int conn = s[0] == 'x' ? XCONN : s[0] - 'a';
     size_t p = s.rfind('.');
     std::string k = s.substr(2, p - 2);
     int kind = -1, dt = -1;
     for (int i = 0; i < NKIND; ++i) if (k == KNAME[i]) kind = i;
     for (int i = 0; i < 4; ++i) if (p + 1 < s.size() && s[p + 1] == DTNAME[i]) dt = i;
-    if (conn < 0 || conn > 1 || kind < 0 || dt < 0) return -1;
+    if (conn < 0 || conn > XCONN || kind < 0 || dt < 0) return -1;
+    if (conn == XCONN && kind != ACK && kind != CD0) return -1;
     return mk_op(conn, kind, dt);
 }
 static std::string hist_str(const uint8_t* h, int n) {
@@ -116,7 +120,7 @@ struct Conn {
     std::unique_ptr<PDU> pk[NKIND];
 };
 static Cfg g_cfg;
-static Conn g_conn[2];
+static Conn g_conn[3];   // [2] = third party
 
 static uint8_t data_byte(int conn, int side, int pos) { return uint8_t(0x20 + conn * 0x40 + side * 0x20 + pos); }
 
@@ -183,6 +187,10 @@ static void setup_cfg(int mode, int pair) {
         resolve(g_conn[i], TM[c.t[i]]);
         for (int k = 0; k < NKIND; ++k) g_conn[i].pk[k].reset(build_kind(g_conn[i], i, k));
     }
+    static const Tmpl third = {false, "9.9.9.9", "8.8.8.8", 7777, 443, {424242u, 515151u}, "third-party"};
+    resolve(g_conn[XCONN], third);
+    g_conn[XCONN].pk[ACK].reset(build_kind(g_conn[XCONN], XCONN, ACK));
+    g_conn[XCONN].pk[CD0].reset(build_kind(g_conn[XCONN], XCONN, CD0));
 }
 static std::string cfg_ctx() {
     return "mode=bfs cfgm=" + str(g_cfg.mode) + " pair=" + str(g_cfg.pair);
@@ -225,6 +233,9 @@ struct Model {
 
 static inline bool partial_start(int kind) { return kind == CD0 || kind == CD1 || kind == SD1; }
 static bool enabled(const Model& m, int conn, int kind) {
+    // third party: a pure ACK never starts a stream; a data segment does not either while partial following is off (with it on it
+    // would attach a third stream: not generated, two streams at a time)
+    if (conn == XCONN) return kind == ACK || (kind == CD0 && !g_cfg.partial);
     const MConn& c = m.c[conn];
     int seg = kind_seg(kind);
     switch (c.phase) {
@@ -276,6 +287,8 @@ static void model_step(Model& m, int conn, int kind, int64_t ts, Pred& p) {
     const Cfg& g = g_cfg;
     p.cbs.clear(); p.boundary = false;
     m.now = ts;
+    if (conn == XCONN) goto sweep;   // nobody's packet: nothing but the passage of time
+    {
     MConn& c = m.c[conn];
     int side = kind_side(kind), seg = kind_seg(kind);
     bool was_live = c.phase == LIVE;
@@ -305,6 +318,8 @@ static void model_step(Model& m, int conn, int kind, int64_t ts, Pred& p) {
             if (ch > g.maxc || by > g.maxb) { p.cbs.push(cb_code(CB_TERM, conn, 1)); c.phase = TERMINATED; }
         }
     }
+    }
+sweep:
     // idle sweep: runs on a processed packet once a keep-alive period has passed since the last sweep
     if (m.lc + g.ka <= ts) {
         if (m.lc + g.ka == ts) p.boundary = true;
@@ -618,16 +633,19 @@ static bool nontrivial(const Model& m) {
 // at which three out-of-order segments per direction, both FINs and a sweep fit into one history, so next to the FULL alphabet
 // (explored to a smaller depth) two sub-alphabets are explored deeper: DATA (every packet kind, time stands still: no sweeps)
 // and TIME (every time increment, one data segment per direction: no reordering).
-struct Profile { const char* name; uint16_t kinds; uint8_t dts; int depth[2][2][2]; /* [san|fast stage][quick|thorough][partial following off|on] */ };
+struct Profile { const char* name; uint16_t kinds, xkinds; uint8_t dts; int depth[2][2][2]; /* [san|fast stage][quick|thorough][partial following off|on] */ };
 static const uint16_t ALLK = (1u << NKIND) - 1;
 static const uint16_t TIMEK = ALLK & ~(1u << CD1 | 1u << CD2 | 1u << SD1 | 1u << SD2);
+// third-party kinds in the alphabets that have time increments: TIME has both, FULL the pure ACK only (without partial following
+// the two take the same path through the follower; the data segment is the one that must not attach a stream there)
+static const uint16_t XK = 1u << ACK | 1u << CD0;
 // Depths are sized from measurements (transitions per level; the sanitizer build executes ~25 k, the plain -O2 build ~140 k transitions
-// per second and core).  TIME reaches its fixpoint at depth 13, DATA without partial following at depth 21: bounds above those
+// per second and core).  TIME reaches its fixpoint at depth 15 (13 before the third-party events existed), DATA without partial following at depth 21: bounds above those
 // mean "to fixpoint".
 static const Profile PROF[] = {
-    {"full", ALLK, 0xF, {{{5, 4}, {6, 4}}, {{7, 5}, {8, 6}}}},
-    {"data", ALLK, 0x1, {{{7, 5}, {9, 6}}, {{10, 7}, {24, 9}}}},
-    {"time", TIMEK, 0xF, {{{6, 6}, {7, 7}}, {{16, 16}, {16, 16}}}},
+    {"full", ALLK, 1u << ACK, 0xF, {{{5, 4}, {6, 4}}, {{7, 5}, {8, 6}}}},
+    {"data", ALLK, 0, 0x1, {{{7, 5}, {9, 6}}, {{10, 7}, {24, 9}}}},
+    {"time", TIMEK, XK, 0xF, {{{6, 6}, {7, 7}}, {{20, 20}, {20, 20}}}},
 };
 static const int NPROF = 3;
 static bool g_fast_stage = false;
@@ -663,9 +681,9 @@ static void run_bfs(int prof, int mode, int pair) {
             const uint8_t* base = d ? &cur[ni * d] : 0;
             if (d) memcpy(h.data(), base, d);
             Model m = model_of(base, d);
-            for (int conn = 0; conn < 2; ++conn)
+            for (int conn = 0; conn <= XCONN; ++conn)
                 for (int kind = 0; kind < NKIND; ++kind) {
-                    if (!(P.kinds >> kind & 1) || !enabled(m, conn, kind)) continue;
+                    if (!((conn == XCONN ? P.xkinds : P.kinds) >> kind & 1) || !enabled(m, conn, kind)) continue;
                     for (int dt = 0; dt < 4; ++dt) {
                         if (!(P.dts >> dt & 1)) continue;
                         h[d] = mk_op(conn, kind, dt);
